@@ -76,6 +76,16 @@ Theorem C19_shared_once_step :
 Proof. exact rotate_at_seen_skip. Qed.
 Print Assumptions C19_shared_once_step.
 
+(* seen_anchors, the list of Anchor names whose object was handed to decrypt,
+   never holds a name twice: with the previous theorem, an anchored value is
+   processed at most once per run, however many aliases it has *)
+Theorem C19_shared_once_anchors :
+  forall (key : Type) (enc dec : key -> string -> option string) (layout : out_fmt -> string -> string)
+         (oldk newk : key) (d : node) (next : N) (folded : list N) (st : rstate),
+    rotate_file key enc dec layout oldk newk d next folded = Ok st -> NoDup (r_seen st).
+Proof. exact seen_anchors_nodup. Qed.
+Print Assumptions C19_shared_once_anchors.
+
 (* known finding F19a: without the guard the statement is false *)
 Theorem C19_rekeyed_refuted_trailing_space :
   forall (key : Type) (dec : key -> string -> option string) (k : key) (s c : string),
